@@ -91,3 +91,31 @@ Proof.
   intros p j j6c cmp Hr Hsg q Hk Hc HS Hx H5 cons Hcomp.
   exact (inverse_5dof_complete p j j6c cmp Hr Hsg Hk Hc HS Hx H5 cons Hcomp).
 Qed.
+
+(** ** the tool axis.  The code re-checks only the tool POINT of a 5-DOF candidate; that the tool AXIS is right is a property
+    of the branch table itself: every answer of the 5-DOF kernel, hence of every 5-DOF entry point, has EXACTLY the requested
+    tool axis (over R), whatever the arm angles of its row are - for every unit axis, every geometry (also c4 = 0, where the
+    position check cannot see the wrist), signs +-1 on J1..J5 *)
+From VF Require Import Proofs.Axis5.
+Theorem C06_kernel5_axis : forall (p : Params),
+  (p_sg1 p = 1 \/ p_sg1 p = -1)%Z /\ (p_sg2 p = 1 \/ p_sg2 p = -1)%Z /\ (p_sg3 p = 1 \/ p_sg3 p = -1)%Z /\
+  (p_sg4 p = 1 \/ p_sg4 p = -1)%Z /\ (p_sg5 p = 1 \/ p_sg5 p = -1)%Z ->
+  forall (compare_xyz : Iso -> Iso -> bool) (pose : Iso), unit_axis pose ->
+  forall c6 s, In s (the_kernel5 p compare_xyz (ik_theta5_def p) pose c6) -> axis_of (fwd p (j6_of s)) = axis_of pose.
+Proof. intros p Hsg cmp pose Hu c6 s Hs. exact (kernel5_axis p Hsg cmp pose Hu c6 s Hs). Qed.
+
+Theorem C06_inverse_5dof_axis : forall (p : Params),
+  (p_sg1 p = 1 \/ p_sg1 p = -1)%Z /\ (p_sg2 p = 1 \/ p_sg2 p = -1)%Z /\ (p_sg3 p = 1 \/ p_sg3 p = -1)%Z /\
+  (p_sg4 p = 1 \/ p_sg4 p = -1)%Z /\ (p_sg5 p = 1 \/ p_sg5 p = -1)%Z ->
+  forall (compare_xyz : Iso -> Iso -> bool) (cons : option (@Constraints R)) (pose : Iso) c6 s, unit_axis pose ->
+  In s (inverse_5dof PI cons Iso (the_kernel5 p compare_xyz (ik_theta5_def p)) pose c6) -> axis_of (fwd p (j6_of s)) = axis_of pose.
+Proof. intros p Hsg cmp cons pose c6 s Hu Hs. exact (inverse_5dof_axis p Hsg cmp cons pose c6 s Hu Hs). Qed.
+
+Theorem C06_continuing_5dof_axis : forall (p : Params),
+  (p_sg1 p = 1 \/ p_sg1 p = -1)%Z /\ (p_sg2 p = 1 \/ p_sg2 p = -1)%Z /\ (p_sg3 p = 1 \/ p_sg3 p = -1)%Z /\
+  (p_sg4 p = 1 \/ p_sg4 p = -1)%Z /\ (p_sg5 p = 1 \/ p_sg5 p = -1)%Z ->
+  forall (compare_xyz : Iso -> Iso -> bool) (cons : option (@Constraints R)) (pose : Iso) (sentinel : bool) prev s, unit_axis pose ->
+  length (if sentinel then centers cons else prev) = 6%nat ->
+  In s (inverse_continuing_5dof PI cons Iso (the_kernel5 p compare_xyz (ik_theta5_def p)) pose sentinel prev) ->
+  axis_of (fwd p (j6_of s)) = axis_of pose.
+Proof. intros p Hsg cmp cons pose sentinel prev s Hu Hl Hs. exact (continuing_5dof_axis p Hsg cmp cons pose sentinel prev s Hu Hl Hs). Qed.
